@@ -167,7 +167,10 @@ int64_t evaluate_address_of(
         size_t flat_index;
         if (array_var->is_multidimensional && indices.size() > 1) {
             // 多次元配列の場合: calculate_flat_index()を使用
-            std::vector<int> int_indices(indices.begin(), indices.end());
+            std::vector<int> int_indices;
+            for (int64_t idx : indices) {
+                int_indices.push_back(Variable::index_to_int(idx));
+            }
             flat_index = static_cast<size_t>(
                 array_var->calculate_flat_index(int_indices));
 
